@@ -9,6 +9,8 @@ def classify(sig, what):
         return 'R9: diff never descends into additionalProperties schemas; ' + kind + ' in the value definition of a response map is only seen under "Spec Definitions" with request rules'
     if kind.startswith('response') and site.startswith('ref>prop-ref'):
         return 'R10: a definition reached from a response through $ref -> property -> $ref is compared once, under "Spec Definitions", with request-side rules: the response context is lost, so ' + kind + ' (breaking for clients) is classified NonBreaking'
+    if kind in ('maximum lowered and made inclusive', 'minimum raised and made inclusive') and site not in ('items', 'nested-items'):
+        return 'R11: when an exclusiveMaximum / exclusiveMinimum flag is removed, checkNumericTypeChanges reports "Widened type - Exclusive ... Removed" and skips the comparison of the bounds (foundDiff), so a bound that is narrowed in the same edit goes unreported: ' + kind + ' at ' + site + ' is classified NonBreaking. Repair attempted (always compare the bounds); the kitchensink fixture of spec_analyser_test pins the current report, so it is recorded instead.'
     if site == 'body.allOf': return 'R7: diff never compares schemas/required sets inside allOf members of a body schema (CompareProperties returns early when neither side has direct properties); ' + kind + ' inside an allOf member is unreported'
     if site == 'body.map': return 'R9: diff never descends into additionalProperties schemas; ' + kind + ' on map values is unreported'
     if site in ('items', 'nested-items'): return 'R5: diff never compares the items of array-typed simple parameters (only collectionFormat/default/example are looked at); ' + kind + ' on items is unreported'
